@@ -1165,6 +1165,11 @@ func PairFilterExclusions(p *core.Program, r *core.Report, rule string) {
 	}
 	n := 0
 	w := facts.NewWalker(info)
+	w.Inline = true // one-line boolean helpers (areBothPeersIPType, isSelfLoopedPair, ...) are read through
+	w.NoInline = func(in *types.Info, c *ast.CallExpr) bool {
+		fn := core.Callee(in, c)
+		return fn != nil && (core.RefName(fn) == "isPeerFocusWorkload" || core.RefName(fn) == "includePairWithRepresentativePeer")
+	}
 	w.OnExit = func(st int, ret *ast.ReturnStmt, f facts.Formula) {
 		if w.FuncLitDepth > 0 || ret == nil || len(ret.Results) != 1 {
 			return
